@@ -306,3 +306,14 @@ def coerce(v, sort):
     if sort == z3.IntSort() and is_bool(v):
         return to_num(v)
     raise Unsupported(f"sort mismatch {v.sort()} vs {sort}")
+
+
+def qforall(vs, body, patterns=None, **kw):
+    """z3.ForAll that falls back to no patterns when a pattern degenerates (e.g. a
+    select over a constant array simplifies to a value)."""
+    if patterns:
+        try:
+            return z3.ForAll(vs, body, patterns=patterns, **kw)
+        except z3.Z3Exception:
+            pass
+    return z3.ForAll(vs, body, **kw)
